@@ -148,5 +148,13 @@ CLAIMS = {
           'the documentation reported for each item (and the line-end comment of each struct field) must be the expected group. The two defects this exhibited on the original tree (trailing comment taken as doc; detached comment on lines 1-2 attached) were repaired by one fix: commit. Partial proof.',
   'note': 'The sortedness of the line table is an invariant of the scanner (append-only while scanning forward, truncated by goback) compared on every scan case, not yet a theorem.',
  },
+ 'C15': {
+  'category': 'proof',
+  'technique': 'Lean 4 step lemmas of the level-restoration invariant (open-recursion bodies) and of the backtracking state + fragment / prefix / call-history differential with positions shifted',
+  'text': 'Proved for every state: parse_next_level_expr and type_ restore the nesting level on success given their callees do (steps of the whole-parser induction), the decrement also runs on the error path, inc then dec is the identity; backtracking keeps exactly the comments before the restored position; line numbers used later are true lines. '
+          'The whole statement is decided by execution: corpus and generated declarations, statements and expressions are parsed alone and embedded after state-leaving prefixes (re-read type-parameter lists and array lengths, control headers, 60-deep nesting, interface elements that fail as methods, multi-line tokens, non-ASCII comments before blank lines, generated declaration sequences in random layouts); '
+          'the embedded subtree must equal the stand-alone tree with every position shifted by the prefix length; sequences of statements parsed by repeated parse_stmt calls on one parser must each equal their stand-alone parse. Partial proof.',
+  'note': 'The induction over all ~60 productions (every production restores the level on success) is not assembled yet; the long flat files of C02 (each construct 70 times) exercise level leaks as well.',
+ },
 }
 NOT_CLAIMED = {}
